@@ -50,10 +50,10 @@ def obligations(tier):
                       statement='boundary parameter extracted exactly, no header anomaly flag, delimiter = CR LF -- boundary', bounds='literal boundary "bQ" (any symbolic boundary byte ran out of memory), %s' % ('quoted' if q else 'unquoted')))
     # boundary matcher (cadical; 12 GB each): quick = one symbolic data byte in four framings, one byte per call, plus a 2-byte chunking;
     # thorough = every framing with one and two symbolic bytes
-    for sh in (0, 2, 3, 6): obs.append(match(sh, 1, timeout=1200))
+    for sh in (0, 2, 6): obs.append(match(sh, 1, timeout=1200))
     for sh in (0, 3, 6): obs.append(match(sh, 1, cuts=chunks(sh, 1, [2] * 12), maxchunk=2, label='chunks2', timeout=900))
     if tier == 'thorough':
-        for sh in (1, 4, 5): obs.append(match(sh, 1, timeout=3000, mem_gb=24, tier='thorough'))
+        for sh in (3, 1, 4, 5): obs.append(match(sh, 1, timeout=3000, mem_gb=24, tier='thorough'))      # shape 3 one byte per call: CBMC returned status ERROR for part of the properties under the 12 GB cap of the quick tier
         for sh in (0, 2, 6, 1, 3, 4, 5): obs.append(match(sh, 2, timeout=3600, mem_gb=24, tier='thorough'))
         obs.append(match(2, 1, cuts=chunks(2, 1, [2] * 12), maxchunk=2, label='chunks2', timeout=3000, mem_gb=16, tier='thorough'))
         obs.append(match(0, 1, cuts=chunks(0, 1, [1, 2, 2, 2, 2, 1]), maxchunk=2, label='chunks2b', timeout=3000, mem_gb=16, tier='thorough'))
